@@ -299,7 +299,7 @@ def _equiv_render(b, root, base=None):
     if r.random() < 0.5:
         rd['obj_var'] = r.randint(1, 10**6)
     if r.random() < 0.5:
-        rd['global_vars'] = {'VA': r.choice(['/data', 'alpha', '']), 'VB': r.choice(['beta', '/x/y', '7'])}
+        rd['global_vars'] = {'VA': r.choice(['/data', 'alpha', '', '{VB}/nested', '{VC}x']), 'VB': r.choice(['beta', '/x/y', '7'])}
         if r.random() < 0.3:
             rd['global_vars']['VC'] = 'gamma'
     return rd
@@ -764,6 +764,18 @@ def gen_c20(r, knobs=None):
     names = b.names(c0)
     for n in r.sample(names, r.randint(0, len(names))):
         b.req(c0, n)
+    if r.random() < 0.25 and names:
+        # the source store has a history of its own: a forced recomputation died there at some point
+        b.proc(hs=r.choice([0, 1]))
+        cx = b.build(root, rd, pmode=False, store='src')
+        nx_ = r.choice(names)
+        b.req(cx, nx_)
+        b.op(op='tforce', cid=cx, task=nx_, name=nx_, delete=False)
+        cr = {'k': r.randint(0, 14), 'tear': None}
+        if r.random() < 0.4:
+            cr['when'] = 'after'
+        b.req(cx, nx_, crash=cr)
+        b.proc(hs=0)
     b.op(op='ls', store='src')
     plan = r.choice([['dry', 'real', 'real'], ['real', 'real'], ['dry', 'dry', 'real'], ['real', 'dry', 'real'], ['dry', 'real']])
     first_real_done = False
